@@ -68,6 +68,10 @@ type Program struct {
 	Files     [][]int // decl indices per file (file 0 holds types and providers)
 	// ExtraImports are import spec lines for file 0, e.g. `ttemplate "text/template"`.
 	ExtraImports []string
+	// SignatureOnly: the program exists for the signature / compile gates; the concurrency
+	// checks leave it out (a provider result of type context.Context is outside the
+	// extractor's model of contexts).
+	SignatureOnly bool
 	// SeparateRuns: the generator is invoked once per declaration file, in order, instead of
 	// once with all files.
 	SeparateRuns bool
